@@ -1,6 +1,7 @@
 package main
 
 import (
+	"go/types"
 	"fmt"
 	"go/token"
 	"sort"
@@ -505,6 +506,12 @@ func ruleIntDivSiblings(w *World, r *RuleResult) {
 		// upscale + error propagation
 		key := name + " | aligns with upscale and propagates its error"
 		us := w.callsTo(f, "upscale")
+		// … or a wrapper that hands upscale's four results on in order (and its error, possibly wrapped)
+		for _, c := range callsIn(f) {
+			if call, isCall := c.(*ssa.Call); isCall && w.isUpscaleWrapper(callee(call)) {
+				us = append(us, call)
+			}
+		}
 		okUp := false
 		if len(us) == 1 {
 			if refs := us[0].Referrers(); refs != nil {
@@ -549,7 +556,7 @@ func ruleIntDivSiblings(w *World, r *RuleResult) {
 		a1, a2 := divs[0].Common().Args[1], divs[0].Common().Args[2]
 		e1, ok1 := a1.(*ssa.Extract)
 		e2, ok2 := a2.(*ssa.Extract)
-		if ok1 && ok2 && e1.Tuple == ssa.Value(us[0]) && e2.Tuple == ssa.Value(us[0]) && e1.Index == 0 && e2.Index == 1 {
+		if ok1 && ok2 && len(us) > 0 && e1.Tuple == ssa.Value(us[0]) && e2.Tuple == ssa.Value(us[0]) && e1.Index == 0 && e2.Index == 1 {
 			r.ok(key, w.instrPos(divs[0]), "dividend = upscale #0 (x), divisor = upscale #1 (y)", true)
 		} else {
 			r.bad(key, w.instrPos(divs[0]), "dividend/divisor are not upscale's first/second result")
@@ -746,4 +753,79 @@ func (w *World) soleDelegate(f *ssa.Function) (*ssa.Function, *ssa.Call) {
 		return nil, nil
 	}
 	return h, only
+}
+
+// isUpscaleWrapper: an unexported function with upscale's result shape whose every return either delivers
+// the four results of one upscale call on its own Decimal parameters in order, or is an error return.
+func (w *World) isUpscaleWrapper(g *ssa.Function) bool {
+	up := w.fn("upscale")
+	if g == nil || up == nil || g == up || !w.inPkg(g) || g.Object() == nil || g.Object().Exported() || len(g.Blocks) == 0 {
+		return false
+	}
+	if !types.Identical(g.Signature.Results(), up.Signature.Results()) {
+		return false
+	}
+	calls := w.callsTo(g, "upscale")
+	if len(calls) != 1 {
+		return false
+	}
+	// the Decimal operands are the wrapper's own parameters, in their order
+	var decParams []ssa.Value
+	for _, p := range g.Params {
+		if isDecimalPtr(p.Type()) {
+			decParams = append(decParams, p)
+		}
+	}
+	a := calls[0].Common().Args
+	if len(decParams) != 2 || len(a) < 2 || a[0] != decParams[0] || a[1] != decParams[1] {
+		return false
+	}
+	n := 0
+	for _, b := range g.Blocks {
+		rt, ok := b.Instrs[len(b.Instrs)-1].(*ssa.Return)
+		if !ok {
+			continue
+		}
+		if w.isErrorReturn(rt) || definitelyErr(rt) {
+			continue
+		}
+		n++
+		for i := 0; i < 3 && i < len(rt.Results); i++ {
+			v := rt.Results[i]
+			if phi, isPhi := v.(*ssa.Phi); isPhi {
+				// named results: the value on the non-error path
+				var pick ssa.Value
+				for _, e := range phi.Edges {
+					if ex, isEx := e.(*ssa.Extract); isEx && ex.Tuple == ssa.Value(calls[0]) {
+						pick = e
+					}
+				}
+				if pick != nil {
+					v = pick
+				}
+			}
+			ex, isEx := v.(*ssa.Extract)
+			if !isEx || ex.Tuple != ssa.Value(calls[0]) || ex.Index != i {
+				return false
+			}
+		}
+	}
+	return n > 0
+}
+
+// definitelyErr: the return's error result is the result of a call that constructs an error.
+func definitelyErr(rt *ssa.Return) bool {
+	if len(rt.Results) == 0 {
+		return false
+	}
+	last := rt.Results[len(rt.Results)-1]
+	if c, ok := last.(*ssa.Call); ok {
+		if f := c.Common().StaticCallee(); f != nil {
+			switch f.String() {
+			case "fmt.Errorf", "errors.New":
+				return true
+			}
+		}
+	}
+	return false
 }
